@@ -4,8 +4,13 @@
 package c02
 
 import (
+	"bytes"
+	"context"
 	"encoding/json"
 	"fmt"
+	"os"
+	"path/filepath"
+	"runtime"
 	"strings"
 	"sync"
 
@@ -73,7 +78,7 @@ func strSpell(v string) (string, bool) {
 
 var hookMu sync.Mutex
 
-const guardInput = "a b c\n\xffd,e \"f\"\n\né é\n1 2 3 4 5 6 7 8 9 10\n"
+const guardInput = "a b c\n\xffd,e \"f\"\n\né é\n1 2 3 4 5 6 7 8 9 10\n \t \na, ,c,\t,0x1A,+inf,-nan,1e400,.5.,\u00a012,\u2003\n"
 
 // program for a numeric site; V is the value expression
 func numProgram(site, v string) (string, bool) {
@@ -169,6 +174,9 @@ func strProgram(site, s string) (string, bool) {
 		return "BEGIN { f = " + s + " } NR == 1 { print close(f), fflush(f) }", true
 	case "printf-format":
 		return "BEGIN { f = " + s + " } NR == 1 { printf f \"%s\\n\", 1, 2; x = sprintf(f) }", true
+	case "operand-fs", "operand-rs", "operand-other":
+		// the value arrives through a var=value operand (see argsOf)
+		return "BEGIN { r1 = getline; r2 = getline; print r1, r2, $1, NF } { print $1, NF; n = split($0, a); print n }", true
 	case "field-sep-arg":
 		return "BEGIN { f = " + s + " } { n = split($0, a, f); print n; print index($0, f), toupper(f) tolower(f), substr(f, 2, 1) }", true
 	}
@@ -177,6 +185,18 @@ func strProgram(site, s string) (string, bool) {
 
 func otherProgram(site string) (string, bool) {
 	switch site {
+	case "recursion-with-locals":
+		return "function f(n, a, b) { a = n; if (n > 0) b = f(n - 1); return a + b } function g(n, t) { if (n == 0) return 0; t = g(n - 1); return t + 1 } " +
+			"BEGIN { print f(20), f(60), f(200), g(150), f(33) }", true
+	case "runaway-recursion-with-locals":
+		return "function g(n, a, b) { a = n; return g(n + 1) + a } BEGIN { g(1) }", true
+	case "field-values":
+		return "BEGIN { FS = \",\" } { for (i = 0; i <= NF; i++) { v = $i; printf \"%d %d %d %d \", (v == \"\"), (v < 1), !v, (v ? 1 : 0); " +
+			"printf \"%c|%d|%s|%5.2f \", v, v, v + 0, v; a[v] = v; if (v ~ v) n++ } print n; x = $0; if ($0) m++; if (x == 0) m++ } END { print m }", true
+	case "getline-other-file-wider":
+		return "{ x = $1; r = (getline line < OTHERFILE); print r, $1, $4, NF; r = (getline < OTHERFILE); print r, $1, $5, NF; print $0 }", true
+	case "getline-var-in-csv":
+		return "{ r = (getline x); print r, x, $1, $2, $3, NF; $2 = \"y\"; print }", true
 	case "recursion":
 		return "function f(n) { return f(n + 1) } BEGIN { f(1) }", true
 	case "mutual-recursion":
@@ -208,6 +228,66 @@ func cfgOf(name string) *interp.Config {
 	return c
 }
 
+// argsOf gives the operands for the sites whose value arrives through a var=value operand.
+func argsOf(site, val string) []string {
+	switch site {
+	case "operand-fs":
+		return []string{"FS=" + val}
+	case "operand-rs":
+		return []string{"RS=" + val}
+	case "operand-other":
+		return []string{"CONVFMT=" + val, "OFS=" + val, "SUBSEP=" + val, "v=" + val}
+	}
+	return nil
+}
+
+// runTwice parses the program and executes it twice on ONE Interpreter, under recover().
+func runTwice(prog string, cfg *interp.Config) (*hx.RunResult, *hx.RunResult) {
+	p, err := parseSafe(prog)
+	if err != nil || p == nil {
+		return &hx.RunResult{ParseErr: fmt.Errorf("%v", err)}, nil
+	}
+	first := &hx.RunResult{}
+	second := &hx.RunResult{}
+	var in *interp.Interpreter
+	for i, res := range []*hx.RunResult{first, second} {
+		func() {
+			defer func() {
+				if r := recover(); r != nil {
+					res.Panic = r
+					buf := make([]byte, 6000)
+					res.PanicStk = string(buf[:runtime.Stack(buf, false)])
+				}
+			}()
+			if i == 0 {
+				in, res.Err = interp.New(p)
+				if res.Err != nil {
+					return
+				}
+			}
+			if in == nil {
+				return
+			}
+			c := *cfg
+			var outb, errb bytes.Buffer
+			c.Stdin = bytes.NewReader([]byte(guardInput))
+			c.Output, c.Error = &outb, &errb
+			c.Environ = []string{}
+			ctx, cancel := context.WithTimeout(context.Background(), hx.HangTimeout)
+			defer cancel()
+			res.Status, res.Err = in.ExecuteContext(ctx, &c)
+			if ctx.Err() == context.DeadlineExceeded && res.Err != nil {
+				res.TimedOut = true
+			}
+			res.Stdout = outb.Bytes()
+		}()
+		if first.Panic != nil {
+			break
+		}
+	}
+	return first, second
+}
+
 // ReplayGuard is the hx.Replayer for Guards.tla exports.
 func ReplayGuard(raw json.RawMessage) hx.Outcome {
 	var c guardCase
@@ -229,22 +309,46 @@ func ReplayGuard(raw json.RawMessage) hx.Outcome {
 	if !ok {
 		return hx.Outcome{Skipped: true, Note: "no spelling for " + c.Site + "/" + c.Val}
 	}
-	res := hx.RunAwk(prog, []byte(guardInput), cfgOf(c.Cfg), nil)
+	cfg := cfgOf(c.Cfg)
+	if s, isStr := strSpell(c.Val); isStr {
+		cfg.Args = argsOf(c.Site, s)
+	}
+	if strings.Contains(prog, "OTHERFILE") {
+		dir, err := os.MkdirTemp("", "c02-")
+		if err != nil {
+			return hx.Outcome{Fail: &hx.Failure{Sig: "HARNESS-PANIC", What: err.Error()}}
+		}
+		defer os.RemoveAll(dir)
+		other := filepath.Join(dir, "wide.csv")
+		os.WriteFile(other, []byte("1,2,3,4,5,6\n\"q\"\"\",w\n7 8 9 10 11 12 13\n"), 0o644)
+		prog = strings.ReplaceAll(prog, "OTHERFILE", hx.AwkString([]byte(other)))
+	}
+	first, second := runTwice(prog, cfg)
 	sig := fmt.Sprintf("C02/%s/%s", c.Site, c.Val)
-	if res.Panic != nil {
-		return hx.Fail(sig+"/panic", fmt.Sprintf("panic: %v", res.Panic), c.Expect, res.PanicStk, prog)
+	if first.ParseErr != nil {
+		return hx.Outcome{Skipped: true, Note: "rejected by the parser: " + first.ParseErr.Error() + ": " + prog}
 	}
-	if res.ParseErr != nil {
-		return hx.Outcome{Skipped: true, Note: "rejected by the parser: " + res.ParseErr.Error() + ": " + prog}
+	for i, res := range []*hx.RunResult{first, second} {
+		if res == nil {
+			continue
+		}
+		which := []string{"first", "second"}[i]
+		if res.Panic != nil {
+			suffix := "/panic"
+			if i == 1 {
+				suffix = "/panic-on-reuse"
+			}
+			return hx.Fail(sig+suffix, fmt.Sprintf("panic in the %s execution: %v", which, res.Panic), c.Expect, res.PanicStk, prog)
+		}
+		if res.TimedOut {
+			return hx.Fail(sig+"/hang", "the "+which+" execution does not terminate", c.Expect, "timeout", prog)
+		}
+		if c.Expect == "must-error" && res.Err == nil {
+			return hx.Fail(sig+"/no-error", "the statement requires an error value here, the "+which+" execution succeeded", "error",
+				fmt.Sprintf("status %d, stdout %q", res.Status, trunc(res.Stdout)), prog)
+		}
 	}
-	if res.TimedOut {
-		return hx.Fail(sig+"/hang", "run does not terminate", c.Expect, "timeout", prog)
-	}
-	if c.Expect == "must-error" && res.Err == nil {
-		return hx.Fail(sig+"/no-error", "the statement requires an error value here, the run succeeded", "error",
-			fmt.Sprintf("status %d, stdout %q", res.Status, trunc(res.Stdout)), prog)
-	}
-	return hx.OK(c.Expect == "must-error" || res.Err != nil)
+	return hx.OK(c.Expect == "must-error" || first.Err != nil)
 }
 
 func trunc(b []byte) string {
